@@ -91,7 +91,7 @@ contract(
 # ---- running average (C04): A' = alpha * (A or I) + (1 - alpha) * mean of the accumulated micro-batches
 for X in ('a', 'g'):
     contract(
-        f'{L}.update_{X}_factor', props=['C04', 'C05', 'C09'],
+        f'{L}.update_{X}_factor', props=['C04', 'C05', 'C09', 'C03'],
         params={'alpha': KDyn},
         requires=[('alpha_is_number', 'isinstance(alpha, (int, float)) and not isinstance(alpha, bool)'),
                   ('batch_square', f'implies(self._{X}_batch is not None, is_square(self._{X}_batch.shape))')],
@@ -131,6 +131,7 @@ for X in ('a', 'g'):
             ('same_shape_dtype', f'awaited(self._{X}_factor).shape == old(awaited(self._{X}_factor).shape) and '
                                  f'awaited(self._{X}_factor).dtype is old(awaited(self._{X}_factor).dtype)'),
             ('nothing_sent_alone', 'implies(group_size(group) == 1, trace() == old(trace()))'),
+            ('result_is_a_pending_reduction', f'implies(group_size(group) != 1, is_future(self._{X}_factor))'),
             ('communicator_invariant', 'tdc_inv(self.tdc)'),
         ],
         modifies=[f'self._{X}_factor', '*.resolved', '*.val', 'self.tdc._allreduce_buckets', '*._tensors', '*._futures', '*._size',
